@@ -369,3 +369,30 @@ def clone(e: Obj, *, rename=None, nsdecl=None) -> Obj:
     for c in e.attrs["__children__"]:
         append(n, clone(c, rename=rename))
     return n
+
+
+# ------------------------------------------------------------------------------------------------- documents as text
+def parse_text(text: str) -> Obj:
+    """Model tree of a document the checker itself wrote as XML text (the checker's own input: read with the standard
+    library's parser; comments, text and tails are kept; the namespace declarations of the root element are recorded)."""
+    import io
+    import xml.etree.ElementTree as ET
+    decl = {}
+    for ev, x in ET.iterparse(io.StringIO(text), events=("start-ns",)):
+        decl.setdefault(x[0] or None, x[1])
+    root = ET.parse(io.StringIO(text), parser=ET.XMLParser(target=ET.TreeBuilder(insert_comments=True))).getroot()
+
+    def conv(e, top):
+        if e.tag is ET.Comment:
+            c = make_comment(e.text or "")
+            c.attrs["tail"] = e.tail
+            return c
+        n = make_elem(e.tag, attrib=dict(e.attrib), text=e.text, nsmap=decl if top else None)
+        n.attrs["tail"] = e.tail
+        for k in e:
+            append(n, conv(k, False))
+        return n
+    r = conv(root, True)
+    r.attrs["tail"] = None
+    attach_nsmap(r)
+    return r
